@@ -155,7 +155,16 @@ static void on_signal(int sig) {
   emit_crash_line(sig == SIGALRM ? "timeout" : "signal", sig);
   _exit(sig == SIGALRM ? 75 : 70);
 }
+static void (*g_exit_probe)() = nullptr;  // "end-of-run hook of the host program", see OP_EXIT_HERE
 static void on_exit_hook() {
+  // This handler is registered before the simulator's first library call, like an application's own end-of-run hook:
+  // the library's registries (namespace-scope objects) are still alive when it runs.  In the forked copy of F6 it
+  // uses the library one last time.
+  if (g_expect_exit == 2 && g_exit_probe) {
+    g_expect_exit = 1;
+    g_exit_probe();
+    return;
+  }
   // exit() called while a plan step was executing in-process: the library terminated the process
   if (g_in_run && !g_expect_exit) {
     fflush(nullptr);
